@@ -68,6 +68,7 @@ int evutil_getaddrinfo(const char *nodename, const char *servname, const struct 
 	return c38_common_err;
 }
 
+#define VPD_TYPED_HOSTS 1
 #include "dns_typed_alloc_pre.h"
 #include "evdns.c"
 #include "dns_typed_alloc_post.h"
@@ -158,22 +159,34 @@ static void c38_check_node(int j, int k, int fam, unsigned a4, unsigned char a6l
 }
 
 /* ---------------------------------------------------------------- fast path */
+#ifndef C38_FP_MODE
+#define C38_FP_MODE 0    /* 0: fast path answers (numeric host / NULL node), 1: fast path reports an error, 2: EVUTIL_AI_NUMERICHOST */
+#endif
 void harness_fastpath(void)
 {
-	struct evutil_addrinfo hints, node_hint, *marker; struct sockaddr_in sin; static const struct sockaddr_in z; struct evdns_getaddrinfo_request *g;
-	int numerichost = vp_bool();
+	struct evutil_addrinfo hints, node_hint, *marker = NULL; struct sockaddr_in sin; static const struct sockaddr_in z; struct evdns_getaddrinfo_request *g;
 	c38_setup();
 	c38_hints(&hints);
-	if (numerichost) hints.ai_flags |= EVUTIL_AI_NUMERICHOST;
+#if C38_FP_MODE == 2
+	hints.ai_flags |= EVUTIL_AI_NUMERICHOST;
+#endif
+#if C38_FP_MODE == 1
+	c38_common_err = vp_int(); __CPROVER_assume(c38_common_err != EVUTIL_EAI_NEED_RESOLVE && c38_common_err != 0);
+#else
 	sin = z; sin.sin_family = AF_INET; c38_hints(&node_hint); node_hint.ai_socktype = SOCK_STREAM; node_hint.ai_protocol = IPPROTO_TCP;
-	c38_common_err = vp_int(); __CPROVER_assume(c38_common_err != EVUTIL_EAI_NEED_RESOLVE);
-	marker = c38_common_err == 0 ? evutil_new_addrinfo_((struct sockaddr *)&sin, sizeof(sin), &node_hint) : NULL;
+	c38_common_err = 0;
+	marker = evutil_new_addrinfo_((struct sockaddr *)&sin, sizeof(sin), &node_hint);
+#endif
 	c38_common_res = marker;
-	g = evdns_getaddrinfo(c38_base, vp_bool() ? NULL : "10.0.0.1", "80", &hints, c38_cb, &c38_rec[0]);
+#ifdef C38_NULL_NODE
+	g = evdns_getaddrinfo(c38_base, NULL, "80", &hints, c38_cb, &c38_rec[0]);
+#else
+	g = evdns_getaddrinfo(c38_base, "10.0.0.1", "80", &hints, c38_cb, &c38_rec[0]);
+#endif
 	VP_ASSERT(g == NULL, "C38: an immediately answered lookup returns no request handle");
 	VP_ASSERT(c38_rec[0].calls == 1 && c38_rec[0].err == c38_common_err && c38_rec[0].head == marker, "C38: numeric / NULL-node lookup: callback exactly once with the fast path's answer");
 	VP_ASSERT(c38_base->global_requests_inflight == 0 && c38_base->global_requests_waiting == 0 && vpe_sendto_calls == 0, "C38: numeric / NULL-node lookup made a DNS query");
-	VP_ASSERT(numerichost ? (c38_sys_calls == 1 && c38_common_calls == 0) : (c38_common_calls == 1 && c38_common_serv != NULL), "C38: fast path consulted once");
+	VP_ASSERT(C38_FP_MODE == 2 ? (c38_sys_calls == 1 && c38_common_calls == 0) : (c38_common_calls == 1 && c38_common_serv != NULL), "C38: fast path consulted once");
 	if (marker) evutil_freeaddrinfo(marker);
 	VP_WITNESS("C38 fastpath: answered without a query");
 	c38_cleanup();
